@@ -284,13 +284,13 @@ func min(a, b int) int {
 func init() {
 	tail := "; oracle = brute-force minimum over all assignments; Optimal(nil), Optimal(chan) and (non-negative costs) Minimize+Model each on a fresh solver; non-trivial = result stream of length >=2, or optimum >0 with >=2 distinct feasible costs"
 	vf.Register(
-		vf.Sub[Case]{Name: "uniform-cnf", Quick: 6000, Thorough: 80000, Gen: genUniform("cnf"), Check: check, Floor: 0.1,
+		vf.Sub[Case]{Name: "uniform-cnf", Quick: 6000, Thorough: 80000, Gen: genUniform("cnf"), Check: check, Floor: 0.07,
 			Rule: "random CNF (n<=10) with a cost function over distinct variables, either polarity, weights 0..9 or nil" + tail},
-		vf.Sub[Case]{Name: "uniform-pb", Quick: 6000, Thorough: 80000, Gen: genUniform("pb"), Check: check, Floor: 0.1,
+		vf.Sub[Case]{Name: "uniform-pb", Quick: 6000, Thorough: 80000, Gen: genUniform("pb"), Check: check, Floor: 0.07,
 			Rule: "random PB constraints via ParsePBConstrs with a cost function" + tail},
-		vf.Sub[Case]{Name: "uniform-card", Quick: 6000, Thorough: 80000, Gen: genUniform("card"), Check: check, Floor: 0.1,
+		vf.Sub[Case]{Name: "uniform-card", Quick: 6000, Thorough: 80000, Gen: genUniform("card"), Check: check, Floor: 0.07,
 			Rule: "random cardinality constraints via ParseCardConstrs with a cost function" + tail},
-		vf.Sub[Case]{Name: "uniform-opb", Quick: 6000, Thorough: 80000, Gen: genUniform("opb"), Check: check, Floor: 0.1,
+		vf.Sub[Case]{Name: "uniform-opb", Quick: 6000, Thorough: 80000, Gen: genUniform("opb"), Check: check, Floor: 0.07,
 			Rule: "random PB problems rendered to OPB text (conventional layout) with a min: line whose coefficients have either sign, via ParseOPB" + tail},
 		vf.Sub[Case]{Name: "covering", Quick: 8000, Thorough: 100000, Gen: genCovering, Check: check, Floor: 0.5,
 			Classes: map[string]float64{"stream-len>=2": 0.12},
@@ -457,6 +457,6 @@ func genSoftPHP(t *rapid.T) SoftPHP {
 
 func init() {
 	vf.Register(vf.Sub[SoftPHP]{Name: "soft-pigeonhole", Quick: 30, Thorough: 300, Gen: genSoftPHP, Check: checkSoftPHP, Floor: 0.4,
-		Classes: map[string]float64{"restart>0": 0.3},
+		Classes: map[string]float64{"restart>0": 0.2},
 		Rule:    "holes+1 pigeons in 5..7 holes; giving up pigeon p costs W[p] in 1..6 (relaxation variable in its clause, weighted cost function), sharing a hole is forbidden; 0..2 further cost literals (of either sign) are fixed by unit clauses; the optimum is known by construction (smallest weight plus the fixed costs) and proving it takes hundreds to thousands of conflicts, with restarts and clause-database reductions between two improvements; entry points Optimal(nil), Optimal(chan), Minimize; asserted: valid model, reported cost = cost of the model = optimum; non-trivial = >= 200 conflicts"})
 }
